@@ -366,19 +366,40 @@ Section WithPoints.
     Lemma pt_length j : j < length P -> length (pt j) = dim.
     Proof. intros Hj. rewrite Forall_forall in HP. apply HP. apply nth_In. exact Hj. Qed.
 
-    Theorem build_tree nodes : build P dim mls oracle = Ok nodes ->
-      exists t, repr nodes 0 t /\ Permutation (tpts t) (seq 0 (length P)) /\ twf t /\ tne t.
+    Lemma build_inv nodes : build P dim mls oracle = Ok nodes ->
+      0 < length nodes /\ exists G, G 0 = seq 0 (length P) /\ DInv G (length nodes) 0 nodes.
     Proof.
       unfold build. intros Hb.
       assert (Hlen : 0 < length nodes) by (apply bloop_length in Hb; simpl in Hb; lia).
+      split; [exact Hlen|].
       apply bloop_inv with (G := fun _ => seq 0 (length P)) in Hb.
-      - destruct Hb as (G' & HG' & HD).
-        destruct (tree_of_inv nodes G' HD (length nodes) 0 ltac:(lia) Hlen) as (t & R & Pm & W & N).
-        exists t. rewrite (HG' 0 ltac:(lia)) in Pm. auto.
+      - destruct Hb as (G' & HG' & HD). exists G'. split; [apply (HG' 0); lia|exact HD].
       - reflexivity.
       - exact I.
       - simpl. repeat split; auto. apply Forall_forall. intros j Hj. apply in_seq in Hj.
         apply inbox_infinite. apply pt_length. lia.
+    Qed.
+
+    Theorem build_tree nodes : build P dim mls oracle = Ok nodes ->
+      exists t, repr nodes 0 t /\ Permutation (tpts t) (seq 0 (length P)) /\ twf t /\ tne t.
+    Proof.
+      intros Hb. destruct (build_inv nodes Hb) as (Hlen & G & HG & HD).
+      destruct (tree_of_inv nodes G HD (length nodes) 0 ltac:(lia) Hlen) as (t & R & Pm & W & N).
+      exists t. rewrite HG in Pm. auto.
+    Qed.
+
+    Theorem build_leaf_boxes nodes : build P dim mls oracle = Ok nodes ->
+      forall i ax lp bb, nth_error nodes i = Some (Leaf ax lp bb) -> forall j, In j lp -> inbox bb (pt j).
+    Proof.
+      intros Hb i ax lp bb Hn j Hj. destruct (build_inv nodes Hb) as (_ & G & _ & HD).
+      pose proof (DInv_nth _ _ _ 0 i _ HD Hn) as Hp. simpl in Hp. destruct Hp as [_ Hf].
+      rewrite Forall_forall in Hf. apply Hf. exact Hj.
+    Qed.
+
+    Theorem build_partition nodes : build P dim mls oracle = Ok nodes ->
+      Permutation (leaves nodes) (seq 0 (length P)).
+    Proof.
+      unfold build. intros Hb. eapply bloop_partition; [|exact Hb]. simpl. rewrite app_nil_r. reflexivity.
     Qed.
 
   End Build.
